@@ -16,40 +16,8 @@ func runC12(c *Ctx) {
 	c.floor("DLV-READCOUNT", 3)
 
 	// ---- refill: no error reported while data was delivered
+	c.refillRules("DLV-DATAWITHERR", "")
 	refill := c.method("postscript", "scanner", "refill")
-	okData := false
-	for _, r := range returns(refill) {
-		if phi, ok := r.Results[0].(*ssa.Phi); ok {
-			for i, e := range phi.Edges {
-				if !isNilConst(e) {
-					continue
-				}
-				pred := phi.Block().Preds[i]
-				for _, cd := range domCondsOpt(pred, false) {
-					if m, ok := asCmp(cd); ok && m.op == token.GTR {
-						if k, isC := constInt(m.y); isC && k == 0 {
-							if ex, ok := m.x.(*ssa.Extract); ok && ex.Index == 0 {
-								okData = true
-							}
-						}
-					}
-				}
-				// the pred itself may be the conditional block's successor
-				if len(pred.Preds) == 1 {
-					pp := pred.Preds[0]
-					if ifi, ok := pp.Instrs[len(pp.Instrs)-1].(*ssa.If); ok && pp.Succs[0] == pred {
-						if m, ok := asCmp(cond{ifi.Cond, true, pp}); ok && m.op == token.GTR {
-							if k, isC := constInt(m.y); isC && k == 0 {
-								okData = true
-							}
-						}
-					}
-				}
-			}
-		}
-	}
-	c.check(okData, "DLV-DATAWITHERR", c.fname(refill), "n > 0 ⇒ no error reported yet", refill.Pos(), "refill returns nil when the read delivered data; the stored error surfaces on the next call",
-		"refill reports the read error even when the same Read delivered data: bytes returned together with EOF are dropped")
 
 	// ---- fixed-size reads use io.ReadFull
 	pfbRead := c.method("pfb", "pfbReader", "Read")
